@@ -115,6 +115,24 @@ func ipv6FromReversed(arpa string) (addr netip.Addr, err error) {
 	return netip.AddrFrom16(ip), nil
 }
 
+// toLowerASCII returns s with all ASCII uppercase letters replaced with their
+// lowercase counterparts.  Unlike [strings.ToLower], it leaves all other bytes
+// intact, so that non-ASCII characters, such as U+0130, cannot turn into ASCII
+// letters of the ARPA domains.
+func toLowerASCII(s string) (lower string) {
+	b := []byte(s)
+	for i := 0; i < len(b); i++ {
+		c := b[i]
+		if c >= 'A' && c <= 'Z' {
+			c += 'a' - 'A'
+		}
+
+		b[i] = c
+	}
+
+	return string(b)
+}
+
 // IPFromReversedAddr tries to convert a full reversed ARPA address to a normal
 // IP address.  arpa can be domain name or an FQDN.
 //
@@ -131,7 +149,7 @@ func IPFromReversedAddr(arpa string) (addr netip.Addr, err error) {
 	defer makeAddrError(&err, arpa, AddrKindARPA)
 
 	// TODO(a.garipov): Add stringutil.HasSuffixFold and remove this.
-	arpa = strings.ToLower(arpa)
+	arpa = toLowerASCII(arpa)
 	switch {
 	case strings.HasSuffix(arpa, arpaV4Suffix):
 		ipStr := arpa[:len(arpa)-len(arpaV4Suffix)]
@@ -368,7 +386,7 @@ func PrefixFromReversedAddr(arpa string) (p netip.Prefix, err error) {
 	defer makeAddrError(&err, arpa, AddrKindARPA)
 
 	// TODO(a.garipov): Add stringutil.HasSuffixFold and remove this.
-	arpa = strings.ToLower(arpa)
+	arpa = toLowerASCII(arpa)
 
 	switch {
 	case strings.HasSuffix(arpa, arpaV4Suffix[len("."):]):
@@ -432,7 +450,7 @@ func ExtractReversedAddr(domain string) (pref netip.Prefix, err error) {
 
 	defer makeAddrError(&err, domain, AddrKindARPA)
 
-	domain = strings.ToLower(domain)
+	domain = toLowerASCII(domain)
 
 	var parseSubnet func(arpa string) (pref netip.Prefix, err error)
 	var indexFirstLabel func(arpa string) (idx int)
